@@ -186,6 +186,9 @@ def rand_body(rng, style_name=None, exotic=0.0):
             planted = (cpr, lic, con)
         except Exception:
             pass
+    if first is not None and rng.random() < exotic:
+        # the line the header has to go behind (shebang, XML declaration, `% !TEX`, …) is itself longer than the window lint reads
+        lines[0] = first + " " + rng.choice(["x", "ab ", "é"]) * rng.choice([2100, 4100, 9000])
     r = rng.random()
     if r < exotic / 3:
         lines.insert(0, "REUSE-IgnoreStart")          # unterminated ignore region in front
